@@ -237,6 +237,7 @@ def plan(tier):
         for b in range(len(DIFF_ALPHA)):
             units.append(('diff', a, b, DL))
     units.append(('diff-short',))
+    units.append(('scale',))
     return {
         'units': units,
         'rule': '(a) constructive: 1-%d hunks; body = every sequence over '
@@ -348,6 +349,32 @@ def run_unit(unit, tier):
                 for ig in (False, True):
                     one(lines, ig, False)
         acc.sample({'prefix': [x.decode() for x in pre]}, 1)
+    elif unit[0] == 'scale':
+        # many hunks, long bodies, large line numbers and counts
+        for nh in (1, 9, 10, 11, 99, 100, 101, 1000, 3000):
+            for body in ('DI', 'CDIC', 'D', 'I'):
+                for ig in (False, True):
+                    lines = []
+                    for h in range(nh):
+                        if ig and h % 7 == 3:
+                            lines.append(b'--- garbage between hunks')
+                        lines += build_hunk(body, 0 if h % 5 == 0 else None,
+                                            1 + 10 * h, 1 + 11 * h, h % 2,
+                                            None, b'x')
+                    if ig:
+                        lines += [b'-- ', b'2.39.0', b'']
+                    one(lines, ig, True)
+        for blen in (9, 10, 11, 99, 100, 101, 1000, 10000):
+            for tok in ('D', 'I', 'C'):
+                body = (tok * blen)
+                for so in (1, 999999, 1000000, 2 ** 31, 2 ** 63):
+                    one(build_hunk(body, blen - 1, so, so + 1, True, b'f',
+                                   b'y'), False, True)
+                    mixed = ('CDI' * blen)[:blen]
+                    one(build_hunk(mixed, None, so, so, False, None, b'y') +
+                        [b'tail'], True, True)
+        acc.sample({'scale': 'up to 3000 hunks, bodies up to 10000 lines, '
+                             'start lines up to 2**63'}, 1)
     else:
         for n in (0, 1):
             for t in itertools.product(DIFF_ALPHA, repeat=n):
